@@ -236,7 +236,8 @@ func histRun(prop string) func(c histCase, o *hx.Obs) {
 				if o.Guard("Find(deleted)", func() { fs, ferr = node.NewBrowser(mm, store.Node()).Root().Find(findPath(op.Path)) }) {
 					return
 				}
-				if ferr == nil && fs != nil && op.Path[len(op.Path)-1].Key != nil {
+				if ferr == nil && fs != nil {
+					// an entry, a container or a whole list: a following Find no longer sees the deleted node
 					o.Failf(sig("still-found"), "step %d: Find(%s) still returns a selection after Delete", i, findPath(op.Path))
 					return
 				}
